@@ -441,6 +441,26 @@ impl Condition for NumericCondition {
                     unreachable!("IN operation should not be used with NumericCondition")
                 }
             }
+        } else if let Some(u) = accessor.get_field_as_u64(&self.field) {
+            // Unsigned value above i64::MAX: compare in the unsigned domain
+            if self.value < 0 {
+                return matches!(
+                    self.operation,
+                    CompareOp::Gt | CompareOp::Gte | CompareOp::Neq
+                );
+            }
+            let rhs = self.value as u64;
+            match self.operation {
+                CompareOp::Gt => u > rhs,
+                CompareOp::Gte => u >= rhs,
+                CompareOp::Lt => u < rhs,
+                CompareOp::Lte => u <= rhs,
+                CompareOp::Eq => u == rhs,
+                CompareOp::Neq => u != rhs,
+                CompareOp::In => {
+                    unreachable!("IN operation should not be used with NumericCondition")
+                }
+            }
         } else if let Some(f) = accessor.get_field_as_f64(&self.field) {
             // Float payload values compare the same way as typed f64 columns in evaluate_at
             let rhs = self.value as f64;
